@@ -45,60 +45,93 @@ def runSched {α} (sch : List SchedItem) (x : AM α) : AM α := fun a =>
 
 theorem hext_setSchedA (sch : List SchedItem) (a : AMgr) : hext (setSchedA sch a) = hext a := rfl
 
-theorem ainvS_of_ainv {off : Bool} {a : AMgr} (h : AInv off a) (sch : List SchedItem) :
+theorem ainvS_of_ainv {off : Bool} {a : AMgr} (h : AInv off a) (h2 : Two off a) (sch : List SchedItem) :
     S.AInv off (setSchedA sch a) :=
   ⟨⟨h.minv.inv.setSched sch, h.minv.order, h.minv.counts.congr rfl rfl, h.minv.ctx, h.minv.roots,
-    h.minv.mode⟩, h.hmem⟩
+    ⟨h.minv.mode, h2⟩⟩, h.hmem⟩
 
 theorem ainv_of_ainvS {off : Bool} {a : AMgr} (h : S.AInv off a) : AInv off (setSchedA [] a) :=
   ⟨⟨h.minv.inv.setSched [], h.minv.order, h.minv.counts.congr rfl rfl, h.minv.ctx, rfl, h.minv.roots,
-    h.minv.mode⟩, h.hmem⟩
+    h.minv.mode.1⟩, h.hmem⟩
 
 /-- `DD.S.AInv` is `AInv` without the clause on the recorded schedule -/
-theorem ainvS_iff {off : Bool} (a : AMgr) : AInv off a ↔ (S.AInv off a ∧ a.m.sched = []) := by
+theorem ainvS_iff {off : Bool} (a : AMgr) :
+    (AInv off a ∧ Two off a) ↔ (S.AInv off a ∧ a.m.sched = []) := by
   constructor
-  · intro h
-    exact ⟨⟨⟨h.minv.inv, h.minv.order, h.minv.counts, h.minv.ctx, h.minv.roots, h.minv.mode⟩, h.hmem⟩,
+  · rintro ⟨h, h2⟩
+    exact ⟨⟨⟨h.minv.inv, h.minv.order, h.minv.counts, h.minv.ctx, h.minv.roots, ⟨h.minv.mode, h2⟩⟩, h.hmem⟩,
       h.minv.sched⟩
   · rintro ⟨h, hs⟩
-    exact ⟨⟨h.minv.inv, h.minv.order, h.minv.counts, h.minv.ctx, hs, h.minv.roots, h.minv.mode⟩, h.hmem⟩
+    exact ⟨⟨⟨h.minv.inv, h.minv.order, h.minv.counts, h.minv.ctx, hs, h.minv.roots, h.minv.mode.1⟩, h.hmem⟩,
+      h.minv.mode.2⟩
+
+/-! ### the guarantees of DDProps.C08 for start states with at least two variables
+
+The every-schedule theorems below come from the C09 / C17 theorems about the decorator, which assume
+two declared variables (`Two false a := 2 ≤ a.m.nvars`; nothing for `off = true`).  `AKeeps2` … are
+`AKeeps` … for those start states.  (With fewer variables and the model's DEFAULT schedule the
+methods are covered by `C08_ops_dyn_total`, DDProofs.AutoFew.) -/
+
+def AKeeps2 {α} (off : Bool) (h : Nat) (x : AM α) : Prop :=
+  ∀ a, AInv off a → Two off a → a.handles.contains h = false → ∀ r a', x a = (r, a') →
+    AInv off a' ∧ (∀ j : Nat, j ≠ h → a'.handles[j]? = a.handles[j]?) ∧
+    (∀ (j : Nat) (u : Int), a.handles[j]? = some u →
+      a'.m.tbl.Mem u ∧ ∀ asg, denN a'.m.tbl u asg = denN a.m.tbl u asg)
+
+def AKeepsAt2 {α} (off : Bool) (a : AMgr) (h : Nat) (x : AM α) : Prop :=
+  AInv off a → Two off a → a.handles.contains h = false → ∀ r a', x a = (r, a') →
+    AInv off a' ∧ (∀ j : Nat, j ≠ h → a'.handles[j]? = a.handles[j]?) ∧
+    (∀ (j : Nat) (u : Int), a.handles[j]? = some u →
+      a'.m.tbl.Mem u ∧ ∀ asg, denN a'.m.tbl u asg = denN a.m.tbl u asg)
+
+def AKeepsL2 {α} (off : Bool) (H : List Nat) (x : AM α) : Prop :=
+  ∀ a, AInv off a → Two off a → (∀ h, h ∈ H → a.handles.contains h = false) → ∀ r a', x a = (r, a') →
+    AInv off a' ∧ (∀ j : Nat, j ∉ H → a'.handles[j]? = a.handles[j]?) ∧
+    (∀ (j : Nat) (u : Int), a.handles[j]? = some u →
+      a'.m.tbl.Mem u ∧ ∀ asg, denN a'.m.tbl u asg = denN a.m.tbl u asg)
+
+def AKeeps02 {α} (off : Bool) (x : AM α) : Prop :=
+  ∀ a, AInv off a → Two off a → ∀ r a', x a = (r, a') →
+    AInv off a' ∧ (∀ j : Nat, a'.handles[j]? = a.handles[j]?) ∧
+    (∀ (j : Nat) (u : Int), a.handles[j]? = some u →
+      a'.m.tbl.Mem u ∧ ∀ asg, denN a'.m.tbl u asg = denN a.m.tbl u asg)
 
 /-- from the guarantee for every state without the schedule clause to the guarantee, in the terms
 of DDProps.C08, for the driver's execution under ANY recorded schedule -/
 theorem runSched_keeps {α} {off : Bool} {h : Nat} {x : AM α} (hk : S.AKeeps off h x)
-    (sch : List SchedItem) : AKeeps off h (runSched sch x) := by
-  intro a hi hf r a' he
+    (sch : List SchedItem) : AKeeps2 off h (runSched sch x) := by
+  intro a hi h2 hf r a' he
   have he' : x (setSchedA sch a) = (r, (x (setSchedA sch a)).2) := by
     have : (x (setSchedA sch a)).1 = r := by
       have := congrArg Prod.fst he; exact this
     rw [← this]
-  obtain ⟨i, s, d⟩ := hk (setSchedA sch a) (ainvS_of_ainv hi sch) hf r _ he'
+  obtain ⟨i, s, d⟩ := hk (setSchedA sch a) (ainvS_of_ainv hi h2 sch) hf r _ he'
   have ha' : a' = setSchedA [] (x (setSchedA sch a)).2 := by
     have := congrArg Prod.snd he; exact this.symm
   subst ha'
   exact ⟨ainv_of_ainvS i, s, d⟩
 
 theorem runSched_keepsL {α} {off : Bool} {H : List Nat} {x : AM α} (hk : S.AKeepsL off H x)
-    (sch : List SchedItem) : AKeepsL off H (runSched sch x) := by
-  intro a hi hf r a' he
+    (sch : List SchedItem) : AKeepsL2 off H (runSched sch x) := by
+  intro a hi h2 hf r a' he
   have he' : x (setSchedA sch a) = (r, (x (setSchedA sch a)).2) := by
     have : (x (setSchedA sch a)).1 = r := by
       have := congrArg Prod.fst he; exact this
     rw [← this]
-  obtain ⟨i, s, d⟩ := hk (setSchedA sch a) (ainvS_of_ainv hi sch) hf r _ he'
+  obtain ⟨i, s, d⟩ := hk (setSchedA sch a) (ainvS_of_ainv hi h2 sch) hf r _ he'
   have ha' : a' = setSchedA [] (x (setSchedA sch a)).2 := by
     have := congrArg Prod.snd he; exact this.symm
   subst ha'
   exact ⟨ainv_of_ainvS i, s, d⟩
 
 theorem runSched_keeps0 {α} {off : Bool} {x : AM α} (hk : S.AKeeps0 off x)
-    (sch : List SchedItem) : AKeeps0 off (runSched sch x) := by
-  intro a hi r a' he
+    (sch : List SchedItem) : AKeeps02 off (runSched sch x) := by
+  intro a hi h2 r a' he
   have he' : x (setSchedA sch a) = (r, (x (setSchedA sch a)).2) := by
     have : (x (setSchedA sch a)).1 = r := by
       have := congrArg Prod.fst he; exact this
     rw [← this]
-  obtain ⟨i, s, d⟩ := hk (setSchedA sch a) (ainvS_of_ainv hi sch) r _ he'
+  obtain ⟨i, s, d⟩ := hk (setSchedA sch a) (ainvS_of_ainv hi h2 sch) r _ he'
   have ha' : a' = setSchedA [] (x (setSchedA sch a)).2 := by
     have := congrArg Prod.snd he; exact this.symm
   subst ha'
@@ -106,13 +139,13 @@ theorem runSched_keeps0 {α} {off : Bool} {x : AM α} (hk : S.AKeeps0 off x)
 
 theorem runSched_keepsAt {α} {off : Bool} {h : Nat} {x : AM α} (a : AMgr)
     (hk : ∀ sch, S.AKeepsAt off (setSchedA sch a) h x) (sch : List SchedItem) :
-    AKeepsAt off a h (runSched sch x) := by
-  intro hi hf r a' he
+    AKeepsAt2 off a h (runSched sch x) := by
+  intro hi h2 hf r a' he
   have he' : x (setSchedA sch a) = (r, (x (setSchedA sch a)).2) := by
     have : (x (setSchedA sch a)).1 = r := by
       have := congrArg Prod.fst he; exact this
     rw [← this]
-  obtain ⟨i, s, d⟩ := hk sch (ainvS_of_ainv hi sch) hf r _ he'
+  obtain ⟨i, s, d⟩ := hk sch (ainvS_of_ainv hi h2 sch) hf r _ he'
   have ha' : a' = setSchedA [] (x (setSchedA sch a)).2 := by
     have := congrArg Prod.snd he; exact this.symm
   subst ha'
@@ -197,30 +230,30 @@ equation for the live `Function`s, no schedule), no handle other than the new on
 live `Function` is still a node and denotes the same function of the variable NAMES.
 The list is `C08_ops_dyn_total`'s. -/
 theorem C08_ops_dyn_total_anySchedule (h : Nat) (sch : List SchedItem) :
-    (∀ name, AKeeps false h (runSched sch (aVar name h))) ∧
-    (∀ b, AKeeps false h (runSched sch (aConst b h))) ∧
-    (∀ op hu hv hw, AKeeps false h (runSched sch (aApply op hu hv hw h))) ∧
-    (∀ hg hu hv, AKeeps false h (runSched sch (aIte hg hu hv h))) ∧
-    (∀ d hu, AKeeps false h (runSched sch (aLet d hu h))) ∧
-    (∀ hu q fa, AKeeps false h (runSched sch (aQuantify hu q fa h))) ∧
-    (∀ d, AKeeps false h (runSched sch (aCube d h))) ∧
-    (∀ i, AKeeps false h (runSched sch (aAddInt i h))) ∧
-    (∀ hu, AKeeps false h (runSched sch (aCopyBddSame hu h))) ∧
-    (∀ e, AKeeps false h (runSched sch (aAddExpr e h))) ∧
-    (∀ op hs ho, AKeeps false h (runSched sch (fApply op hs ho h))) ∧
-    (∀ high hs, AKeeps false h (runSched sch (fChild high hs h))) ∧
-    (∀ hs, AKeeps false h (runSched sch (fCopy hs h))) ∧
-    (∀ hu h2, h ≠ h2 → AKeepsL false [h, h2] (runSched sch (aSucc hu h h2))) ∧
-    (∀ hs ho, AKeeps0 false (runSched sch (fEq hs ho))) ∧
-    (∀ hs ho, AKeeps0 false (runSched sch (fNe hs ho))) ∧
-    (∀ hs ho, AKeeps0 false (runSched sch (fLe hs ho))) ∧
-    (∀ hs ho, AKeeps0 false (runSched sch (fLt hs ho))) ∧
-    AKeeps false h (runSched sch aCollectGarbage) ∧
-    (∀ r, AKeeps false h (runSched sch (aConfigure r))) ∧
-    (∀ ns, AKeeps false h (runSched sch (aDeclare ns))) ∧
-    (∀ (src : AMgr) hu, AKeeps false h (runSched sch (aCopyTo src hu h))) ∧
-    (∀ (src : AMgr) hu, AKeeps false h (runSched sch (aCopyBddTo src hu h))) ∧
-    (∀ pre ht hs rn q fa, AKeeps false h (runSched sch (aImage pre ht hs rn q fa h))) := by
+    (∀ name, AKeeps2 false h (runSched sch (aVar name h))) ∧
+    (∀ b, AKeeps2 false h (runSched sch (aConst b h))) ∧
+    (∀ op hu hv hw, AKeeps2 false h (runSched sch (aApply op hu hv hw h))) ∧
+    (∀ hg hu hv, AKeeps2 false h (runSched sch (aIte hg hu hv h))) ∧
+    (∀ d hu, AKeeps2 false h (runSched sch (aLet d hu h))) ∧
+    (∀ hu q fa, AKeeps2 false h (runSched sch (aQuantify hu q fa h))) ∧
+    (∀ d, AKeeps2 false h (runSched sch (aCube d h))) ∧
+    (∀ i, AKeeps2 false h (runSched sch (aAddInt i h))) ∧
+    (∀ hu, AKeeps2 false h (runSched sch (aCopyBddSame hu h))) ∧
+    (∀ e, AKeeps2 false h (runSched sch (aAddExpr e h))) ∧
+    (∀ op hs ho, AKeeps2 false h (runSched sch (fApply op hs ho h))) ∧
+    (∀ high hs, AKeeps2 false h (runSched sch (fChild high hs h))) ∧
+    (∀ hs, AKeeps2 false h (runSched sch (fCopy hs h))) ∧
+    (∀ hu h2, h ≠ h2 → AKeepsL2 false [h, h2] (runSched sch (aSucc hu h h2))) ∧
+    (∀ hs ho, AKeeps02 false (runSched sch (fEq hs ho))) ∧
+    (∀ hs ho, AKeeps02 false (runSched sch (fNe hs ho))) ∧
+    (∀ hs ho, AKeeps02 false (runSched sch (fLe hs ho))) ∧
+    (∀ hs ho, AKeeps02 false (runSched sch (fLt hs ho))) ∧
+    AKeeps2 false h (runSched sch aCollectGarbage) ∧
+    (∀ r, AKeeps2 false h (runSched sch (aConfigure r))) ∧
+    (∀ ns, AKeeps2 false h (runSched sch (aDeclare ns))) ∧
+    (∀ (src : AMgr) hu, AKeeps2 false h (runSched sch (aCopyTo src hu h))) ∧
+    (∀ (src : AMgr) hu, AKeeps2 false h (runSched sch (aCopyBddTo src hu h))) ∧
+    (∀ pre ht hs rn q fa, AKeeps2 false h (runSched sch (aImage pre ht hs rn q fa h))) := by
   obtain ⟨a1, a2, a3, a4, a5, a6, a7, a8, a9, a10, a11, a12, a13, a14, a15, a16, a17, a18, a19, a20,
     a21, a22, a23, a24⟩ := S.C08_ops_dyn_total h
   exact ⟨fun n => runSched_keeps (a1 n) sch, fun b => runSched_keeps (a2 b) sch,
@@ -241,18 +274,18 @@ theorem C08_ops_dyn_total_anySchedule (h : Nat) (sch : List SchedItem) :
 instances of the calls with arbitrary arguments above (its hypotheses — declared names, live
 operands — are not needed for "the invariant and every live meaning are kept") -/
 theorem C08_ops_dyn_anySchedule (a : AMgr) (h : Nat) (sch : List SchedItem) :
-    (∀ hg hu hv, AKeepsAt false a h (runSched sch (aIte hg hu hv h))) ∧
-    (∀ op hu hv hw, AKeepsAt false a h (runSched sch (aApply op hu hv hw h))) ∧
-    (∀ name, AKeepsAt false a h (runSched sch (aVar name h))) ∧
-    (∀ hu q fa, AKeepsAt false a h (runSched sch (aQuantify hu q fa h))) ∧
-    (∀ d, AKeepsAt false a h (runSched sch (aCube d h))) ∧
-    (∀ d hu, AKeepsAt false a h (runSched sch (aLet d hu h))) ∧
-    (∀ op hs ho, AKeepsAt false a h (runSched sch (fApply op hs ho h))) ∧
-    (∀ ns, AKeepsAt false a h (runSched sch (aDeclare ns))) ∧
-    (∀ hs ho, AKeeps0 false (runSched sch (fLe hs ho))) ∧
-    (∀ hs ho, AKeeps0 false (runSched sch (fLt hs ho))) ∧
-    (∀ (src : AMgr) hu, AKeepsAt false a h (runSched sch (aCopyTo src hu h))) ∧
-    (∀ (src : AMgr) hu, AKeepsAt false a h (runSched sch (aCopyBddTo src hu h))) := by
+    (∀ hg hu hv, AKeepsAt2 false a h (runSched sch (aIte hg hu hv h))) ∧
+    (∀ op hu hv hw, AKeepsAt2 false a h (runSched sch (aApply op hu hv hw h))) ∧
+    (∀ name, AKeepsAt2 false a h (runSched sch (aVar name h))) ∧
+    (∀ hu q fa, AKeepsAt2 false a h (runSched sch (aQuantify hu q fa h))) ∧
+    (∀ d, AKeepsAt2 false a h (runSched sch (aCube d h))) ∧
+    (∀ d hu, AKeepsAt2 false a h (runSched sch (aLet d hu h))) ∧
+    (∀ op hs ho, AKeepsAt2 false a h (runSched sch (fApply op hs ho h))) ∧
+    (∀ ns, AKeepsAt2 false a h (runSched sch (aDeclare ns))) ∧
+    (∀ hs ho, AKeeps02 false (runSched sch (fLe hs ho))) ∧
+    (∀ hs ho, AKeeps02 false (runSched sch (fLt hs ho))) ∧
+    (∀ (src : AMgr) hu, AKeepsAt2 false a h (runSched sch (aCopyTo src hu h))) ∧
+    (∀ (src : AMgr) hu, AKeepsAt2 false a h (runSched sch (aCopyBddTo src hu h))) := by
   obtain ⟨a1, _, a3, a4, a5, a6, a7, _, _, _, a11, _, _, _, _, _, a17, a18, _, _,
     a21, a22, a23, _⟩ := C08_ops_dyn_total_anySchedule h sch
   exact ⟨fun hg hu hv => a4 hg hu hv a, fun op hu hv hw => a3 op hu hv hw a, fun n => a1 n a,
@@ -263,29 +296,29 @@ theorem C08_ops_dyn_anySchedule (a : AMgr) (h : Nat) (sch : List SchedItem) :
 /-- C08 `C08_image_dyn` for every recorded schedule (ANY arguments) -/
 theorem C08_image_dyn_anySchedule (h : Nat) (sch : List SchedItem) (pre : Bool) (ht hs : Nat)
     (rn : List (Key × Key)) (q : List Key) (fa : Bool) :
-    AKeeps false h (runSched sch (aImage pre ht hs rn q fa h)) :=
+    AKeeps2 false h (runSched sch (aImage pre ht hs rn q fa h)) :=
   (C08_ops_dyn_total_anySchedule h sch).2.2.2.2.2.2.2.2.2.2.2.2.2.2.2.2.2.2.2.2.2.2.2 pre ht hs rn q fa
 
 /-- C08, the explicit `reorder()` (sifting, at least two variables) and `reorder(order)` (a
 complete order) under ANY recorded schedule, any mode: every outcome — returned, or the model's
 schedule mismatch — keeps the invariant and every live meaning -/
 theorem C08_reorder_anySchedule {off : Bool} (a : AMgr) (h : Nat) (sch : List SchedItem) :
-    (2 ≤ a.m.nvars → AKeepsAt off a h (runSched sch (aReorder none))) ∧
-    (∀ o, ReqOrder o a.m → AKeepsAt off a h (runSched sch (aReorder (some o)))) :=
+    (2 ≤ a.m.nvars → AKeepsAt2 off a h (runSched sch (aReorder none))) ∧
+    (∀ o, ReqOrder o a.m → AKeepsAt2 off a h (runSched sch (aReorder (some o)))) :=
   ⟨fun h2 => runSched_keepsAt a (fun s => S.aReorder_sift_keepsAt (setSchedA s a) h2 h) sch,
    fun o ho => runSched_keepsAt a
      (fun s => S.aReorder_order_keepsAt (setSchedA s a) o ⟨ho.len, ho.cover, ho.range, ho.inj⟩ h) sch⟩
 
-/-- what `AKeeps false h (runSched sch x)` says, spelled out -/
+/-- what `AKeeps2 false h (runSched sch x)` says, spelled out -/
 theorem C08_anySchedule_means {α} (h : Nat) (sch : List SchedItem) (x : AM α)
-    (hk : AKeeps false h (runSched sch x)) (a : AMgr) (hi : AInv false a)
+    (hk : AKeeps2 false h (runSched sch x)) (a : AMgr) (hi : AInv false a) (h2 : Two false a)
     (hf : a.handles.contains h = false) :
     AInv false (setSchedA [] (x (setSchedA sch a)).2) ∧
     (∀ j : Nat, j ≠ h → (x (setSchedA sch a)).2.handles[j]? = a.handles[j]?) ∧
     (∀ (j : Nat) (u : Int), a.handles[j]? = some u →
       (x (setSchedA sch a)).2.m.tbl.Mem u ∧
       ∀ asg, denN (x (setSchedA sch a)).2.m.tbl u asg = denN a.m.tbl u asg) :=
-  hk a hi hf _ _ rfl
+  hk a hi h2 hf _ _ rfl
 
 /-- with no recorded schedule the statements above are those of DDProps.C08 -/
 theorem C08_anySchedule_default {α} {off : Bool} (x : AM α) (a : AMgr) (hi : AInv off a) :
@@ -306,7 +339,9 @@ theorem exAutoS_inv : AInv false exAutoS := by
   have h := nvA4_inv
   exact ⟨⟨⟨h.minv.inv.wf, h.minv.inv.pred, h.minv.inv.freeGe, h.minv.inv.free, h.minv.inv.refOne,
     h.minv.inv.refDom, h.minv.inv.cache⟩, h.minv.order, h.minv.counts.congr rfl rfl, h.minv.ctx,
-    h.minv.sched, h.minv.roots, ⟨(fun hf => nomatch hf), fun _ => by decide +kernel⟩⟩, h.hmem⟩
+    h.minv.sched, h.minv.roots, fun hf => nomatch hf⟩, h.hmem⟩
+
+theorem exAutoS_two : Two false exAutoS := fun _ => by unfold exAutoS; decide +kernel
 
 /-- a recorded schedule for `fb & fx` on that session: variables in the order `c, b, a` (the
 default is `a, b, c`), every level set descending; thirteen swaps -/
@@ -346,9 +381,9 @@ example : AInv false (setSchedA [] (fApply "and" 1 (some 2) 5 (setSchedA exAutoS
     AInv false (setSchedA [] (fApply "and" 1 (some 2) 5 (setSchedA [.swap []] exAutoS)).2) :=
   ⟨(C08_anySchedule_means 5 exAutoSched _
       ((C08_ops_dyn_total_anySchedule 5 exAutoSched).2.2.2.2.2.2.2.2.2.2.1 "and" 1 (some 2))
-      exAutoS exAutoS_inv (by unfold exAutoS; decide +kernel)).1,
+      exAutoS exAutoS_inv exAutoS_two (by unfold exAutoS; decide +kernel)).1,
    (C08_anySchedule_means 5 [.swap []] _
       ((C08_ops_dyn_total_anySchedule 5 [.swap []]).2.2.2.2.2.2.2.2.2.2.1 "and" 1 (some 2))
-      exAutoS exAutoS_inv (by unfold exAutoS; decide +kernel)).1⟩
+      exAutoS exAutoS_inv exAutoS_two (by unfold exAutoS; decide +kernel)).1⟩
 
 end DD
